@@ -146,10 +146,22 @@ func runC17(op string) string {
 				peerDone <- "peer-write-failed"
 				return
 			}
-			_, resp, err := g2ReadSegment(b)
-			if err != nil || len(resp) < 2 || resp[1] != handshake.MessageTypeAcceptVersion {
-				peerDone <- "peer-handshake-failed"
-				return
+			// A duplex local side starts its client protocols right after queueing AcceptVersion, so
+			// one of their first segments may overtake it on the wire: skip to the handshake reply.
+			for {
+				id, resp, err := g2ReadSegment(b)
+				if err != nil {
+					peerDone <- "peer-handshake-failed"
+					return
+				}
+				if id != 0x8000 {
+					continue
+				}
+				if len(resp) < 2 || resp[1] != handshake.MessageTypeAcceptVersion {
+					peerDone <- "peer-handshake-failed"
+					return
+				}
+				break
 			}
 		} else {
 			// we are the responder: accept <version>
